@@ -145,6 +145,12 @@ func checkGradient(c Case) error {
 		if c.Dyadic && (!c.Radial || m[3]*px+m[4]*py+m[5] == 0) {
 			disc = 0 // the offset is exact: exactly 0 or 1 lies inside [0,1]
 		}
+		if math.Abs(o)-delta >= 1<<54 {
+			// every float64 this far out is an even integer: whatever the rounding on the way,
+			// the fractional part is 0 and the parity even
+			delta, disc = 0, 0
+			astronomic++
+		}
 		rr, gg, bb, aa := at(p[0], p[1]).RGBA()
 		got := [4]float64{float64(rr), float64(gg), float64(bb), float64(aa)}
 		if rr > aa || gg > aa || bb > aa {
@@ -176,6 +182,8 @@ func checkGradient(c Case) error {
 	return nil
 }
 
+var astronomic int64
+
 func exactScale(c Case) bool {
 	w := float64(c.ViewBox[2]) - float64(c.ViewBox[0])
 	h := float64(c.ViewBox[3]) - float64(c.ViewBox[1])
@@ -199,7 +207,7 @@ func b2i(b bool) int {
 	return 0
 }
 
-var subGrad = harness.Define("gradient", "gradients (2-58 strictly increasing stops on exact grids, premultiplied colours incl. transparent, four spreads, two shapes, dyadic or general matrices) evaluated at pixels constructed to hit interior points, exact stop offsets, exact odd/even/negative integers and far-out offsets, at render.Gradient.At and end to end through the Renderer (paint captured at Draw): colour within 1+2*slope*delta of the premultiplied piece-wise linear interpolation at the spread-mapped offset (interval handling at discontinuities), valid premultiplied; non-trivial = an offset outside [0,1] or exactly on a stop/integer", checkGradient)
+var subGrad = harness.Define("gradient", "gradients (2-58 strictly increasing stops on exact grids, premultiplied colours incl. transparent, four spreads, two shapes, dyadic or general matrices) evaluated at pixels constructed to hit interior points, exact stop offsets, exact odd/even/negative integers, far-out offsets and offsets of 2^54..2^100 under astronomically steep matrices, at render.Gradient.At and end to end through the Renderer (paint captured at Draw): colour within 1+2*slope*delta of the premultiplied piece-wise linear interpolation at the spread-mapped offset (interval handling at discontinuities), valid premultiplied; non-trivial = an offset outside [0,1] or exactly on a stop/integer", checkGradient)
 
 func pow2(t *rapid.T, label string, lo, hi int) float64 {
 	v := math.Ldexp(1, rapid.IntRange(lo, hi).Draw(t, label))
@@ -266,7 +274,18 @@ func genCase(t *rapid.T) (Case, []string) {
 		// target offset: a stop, an integer, or a dyadic interior/outside point
 		var target float64
 		inexactTarget = false
-		switch rapid.IntRange(0, 4).Draw(t, "target") {
+		tk := rapid.IntRange(0, 4).Draw(t, "target")
+		if rapid.IntRange(0, 7).Draw(t, "astro") == 0 {
+			// an astronomically steep (finite) matrix: one pixel from the zero line the offset is
+			// 2^54..2^100, far beyond what an integer type holds
+			pm[0] = pow2(t, "astro.a", 54, 100)
+			pm[1], pm[4] = 0, 0
+			tk = 5
+			labels = append(labels, "astronomic-matrix")
+		}
+		switch tk {
+		case 5:
+			target = 0
 		case 0:
 			s := c.Stops[rapid.IntRange(0, len(c.Stops)-1).Draw(t, "stop")]
 			target = float64(s.Offset)
@@ -350,13 +369,14 @@ func TestGradient(t *testing.T) {
 		c, labels := genCase(t)
 		nt := false
 		for _, l := range labels {
-			if l == "exactly-on-a-stop" || l == "exactly-on-an-integer" || l == "far-outside" || l == "general-matrix" {
+			if l == "exactly-on-a-stop" || l == "exactly-on-an-integer" || l == "far-outside" || l == "general-matrix" || l == "astronomic-matrix" {
 				nt = true
 			}
 		}
 		subGrad.See(c, nt, harness.HashJSON(c), labels...)
 		subGrad.Run(t, c)
 	})
+	subGrad.Label("pixels-with-offset-beyond-2^54-decided-exactly", astronomic)
 }
 
 // Deterministic table: every spread at every integer offset -6..6 and just
